@@ -202,8 +202,11 @@ pub fn run(args: &Args) -> i32 {
     let seed = arg_u64(args, "seed", 1);
     let mut rng = rng_for(seed, "c06");
     let mut pool = Pool::new(seed);
+    let verbose = args.contains_key("verbose");
+    let t0 = std::time::Instant::now();
     let mut c = Ctx { out: Out::create(arg_str(args, "out", "trace.ndjson")), timeouts: 0 };
 
+    if verbose { eprintln!("[c06] stage 0 {:?}", t0.elapsed()); }
     // ---- A. exhaustive blocks of small integers
     if thorough {
         for b in 0..(1u64 << 22) / 1024 {
@@ -225,6 +228,7 @@ pub fn run(args: &Args) -> i32 {
         c.block(lo, 256);
     }
 
+    if verbose { eprintln!("[c06] stage 1 {:?}", t0.elapsed()); }
     // ---- B. every strong pseudoprime to bases 2 and 3 below a bound (own scan), decided by TLC itself
     let lim: u64 = if thorough { 1 << 27 } else { 1 << 24 };
     let mut n = 9u64;
@@ -235,6 +239,7 @@ pub fn run(args: &Args) -> i32 {
         n += 2;
     }
 
+    if verbose { eprintln!("[c06] stage 2 {:?}", t0.elapsed()); }
     // ---- C. published least strong pseudoprimes psi_k and further strong pseudoprimes to many bases
     for &v in &[2047u64, 1373653, 25326001, 3215031751, 2152302898747, 3474749660383, 341550071728321, 3825123056546413051] {
         c.ev64(v, "psi", None);
@@ -260,6 +265,7 @@ pub fn run(args: &Args) -> i32 {
         c.evbig(p * q, "psi", div_wit(&p), Some(vec![p, q]));
     }
 
+    if verbose { eprintln!("[c06] stage 3 {:?}", t0.elapsed()); }
     // ---- D. structured composites p(2p-1), p(3p-2) around the thresholds and up to 2^64, and beyond
     for (mult, fam) in [(2u64, "p2p1"), (3u64, "p3p2")] {
         // p * (mult*p - (mult-1)) ~ target  =>  p ~ sqrt(target / mult)
@@ -314,6 +320,7 @@ pub fn run(args: &Args) -> i32 {
             }
         }
     }
+    if verbose { eprintln!("[c06] stage 4 {:?}", t0.elapsed()); }
     // Chernick numbers (6k+1)(12k+1)(18k+1) with three prime factors: all below 2^64 nearest to the thresholds,
     // a seeded sample, and larger ones
     let mut chern: Vec<(u64, u64)> = vec![]; // (k, n)
@@ -366,6 +373,7 @@ pub fn run(args: &Args) -> i32 {
             c.evbig(a * b * cc, "carmichael", div_wit(&b), Some(vec![a, b, cc]));
         }
     }
+    if verbose { eprintln!("[c06] stage 5 {:?}", t0.elapsed()); }
     // every Carmichael number in a window around 2^20 (own factorisation + Korselt), decided by TLC itself
     let mut n = (1u64 << 20) - 300_000 + 1;
     while n < (1 << 20) + 300_000 {
@@ -396,6 +404,7 @@ pub fn run(args: &Args) -> i32 {
     }
     // known Carmichael numbers around 2^40 and up to 2^64 are covered by the Chernick family above
 
+    if verbose { eprintln!("[c06] stage 6 {:?}", t0.elapsed()); }
     // ---- E. even numbers and numbers with a small factor at the word boundaries
     for k in [8u32, 16, 20, 31, 32, 40, 48, 63] {
         for d in [-2i64, 0, 2] {
@@ -435,6 +444,7 @@ pub fn run(args: &Args) -> i32 {
         }
     }
 
+    if verbose { eprintln!("[c06] stage 7 {:?}", t0.elapsed()); }
     // ---- F. certified primes, 33..64 bits (exactness) and above (never rejected), and products of two of them
     let reps = if thorough { 4 } else { 1 };
     let mut primes64: Vec<u64> = vec![];
@@ -446,6 +456,7 @@ pub fn run(args: &Args) -> i32 {
             c.ev64(p.digits()[0], "prime", ch);
         }
     }
+    if verbose { eprintln!("[c06] stage 8 {:?}", t0.elapsed()); }
     // close to the thresholds and to 2^64
     let near = |bits: u32, hi: bool| -> Box<dyn Fn(&Uint) -> bool> {
         // top 9 bits after the leading one all ones (just below 2^bits) or all zeros (just above 2^(bits-1))
@@ -468,6 +479,7 @@ pub fn run(args: &Args) -> i32 {
             c.evbig(p, "prime_edge", json!({"kind": "chain", "chain": ch}), None);
         }
     }
+    if verbose { eprintln!("[c06] stage 9 {:?}", t0.elapsed()); }
     let mut bigbits: Vec<u32> = vec![65, 66, 72, 80, 96, 112, 127, 128, 129, 160, 192, 224, 256];
     if thorough {
         bigbits.extend_from_slice(&[65, 97, 128, 130, 193, 255, 257, 320, 384, 448, 500]);
@@ -479,12 +491,14 @@ pub fn run(args: &Args) -> i32 {
         bigprimes.push(p);
         c.evbig(p, "prime", json!({"kind": "chain", "chain": ch}), None);
     }
+    if verbose { eprintln!("[c06] stage 10 {:?}", t0.elapsed()); }
     // primes with low word 1 (valuation of p - 1 at least 64: the shift by s = 64 in pseudoprime)
     for qbits in [70u32, 80, 100] {
         if let Some((p, ch)) = low_word_one_prime(&mut pool, &mut rng, qbits) {
             c.evbig(p, "prime_lowword1", json!({"kind": "chain", "chain": ch}), None);
         }
     }
+    if verbose { eprintln!("[c06] stage 11 {:?}", t0.elapsed()); }
     // products of two primes
     for i in 0..primes64.len() / 2 {
         let (a, b) = (primes64[i], primes64[primes64.len() - 1 - i]);
